@@ -31,6 +31,7 @@ type member struct {
 	eng   *engine.EngineImpl
 	st    *recStorage
 	up    bool
+	cut   bool // network cut: alive for meta, but no raft message gets in or out (a paused / partitioned store)
 }
 
 type group struct {
@@ -59,14 +60,18 @@ func (m *groupMeta) DataNode(id uint64) (*meta2.DataNode, error) {
 }
 
 // transport: RaftNode.send -> ISend.SendRaftMessages(nodeID, db, pt, msg)
-type router struct{ g *group }
+type router struct {
+	g    *group
+	from int
+}
 
 func (r *router) SendRaftMessages(nodeID uint64, database string, pt uint32, msg raftpb.Message) error {
 	r.g.mu.Lock()
 	m := r.g.ms[nodeID-1]
 	up, node := m.up, m.node
+	cut := m.cut || r.g.ms[r.from].cut
 	r.g.mu.Unlock()
-	if up && node != nil {
+	if up && node != nil && !cut {
 		node.StepRaftMessage([]raftpb.Message{msg})
 	}
 	return nil
@@ -93,7 +98,7 @@ func (g *group) start(i int) {
 	peers := []raft.Peer{{ID: 1}, {ID: 2}, {ID: 3}}
 	node := raftconn.StartNode(store, uint64(i+1), "db0", uint64(i+1), peers, g.mc, map[uint32]uint64{0: 1, 1: 2, 2: 3})
 	node.WithLogger(logger.NewLogger(0))
-	node.ISend = &router{g: g}
+	node.ISend = &router{g: g, from: i}
 	replayC := make(chan *raftconn.Commit, 1)
 	node.ReplayC = replayC
 	if err = node.InitAndStartNode(); err != nil {
@@ -211,7 +216,7 @@ func runGroupCase(work string, c *GroupCase) {
 	sc := config.GetStoreConfig()
 	sc.ClearEntryLogTolerateTime = 0
 	sc.ClearEntryLogTolerateSize = 1 << 60
-	if c.Forced == "none" {
+	if c.Forced == "none" || c.Forced == "lag" {
 		sc.ClearEntryLogTolerateTime = 1 << 60
 	}
 	if c.Forced == "size" {
@@ -239,7 +244,14 @@ func runGroupCase(work string, c *GroupCase) {
 	// everybody has applied the first writes
 	waitFor(5*time.Second, func() bool { _, n := g.ms[v].st.snapshot(); return n >= len(acked) })
 	_, c.VictimLast = g.ms[v].store.GetFirstLast()
-	g.kill(v)
+	if c.Forced == "lag" {
+		// the member stays alive for meta (healthy branch of the truncation decision) but receives nothing
+		g.mu.Lock()
+		g.ms[v].cut = true
+		g.mu.Unlock()
+	} else {
+		g.kill(v)
+	}
 	// a long outage: more than one entry-log file is written meanwhile, with overwrites of the acknowledged keys
 	g.bulk(l, 0, c.Entries)
 	for k := int64(1); k <= 5; k++ {
@@ -265,7 +277,13 @@ func runGroupCase(work string, c *GroupCase) {
 	time.Sleep(500 * time.Millisecond)
 	c.FirstL, _ = g.ms[l].store.GetFirstLast()
 	// the victim comes back
-	g.start(v)
+	if c.Forced == "lag" {
+		g.mu.Lock()
+		g.ms[v].cut = false
+		g.mu.Unlock()
+	} else {
+		g.start(v)
+	}
 	for k := int64(6); k <= 8; k++ {
 		if err := g.write(g.leader(10*time.Second), k, 200+k, 20*time.Second); err == nil {
 			acked[k] = 200 + k
